@@ -63,6 +63,7 @@ func c04R1(e *Engine) {
 		// LastEvaluatedKey ← conv(result #1 of SearchData)
 		last := extractOf(s.call, 1)
 		ok := false
+		extra := ""
 		instrs(s.fn, func(i2 ssa.Instruction) {
 			st, isSt := i2.(*ssa.Store)
 			if !isSt {
@@ -75,10 +76,22 @@ func c04R1(e *Engine) {
 			if c, isC := strip(st.Val).(*ssa.Call); isC && len(c.Call.Args) == 1 && len(last) > 0 && c.Call.Args[0] == ssa.Value(last[0]) {
 				if conv, _ := isConversion(e, c.Call.StaticCallee()); conv {
 					ok = true
+					// … unconditionally: whatever the search hands back is handed on; a page is complete only when the
+					// ENGINE says so (how many items came back says nothing: Limit bounds the items examined)
+					at := map[ssa.Value]bool{}
+					for _, cd := range condsAt(s.call.Block()) {
+						at[normCond(cd).V] = true
+					}
+					for _, cd := range condsAt(st.Block()) {
+						if !at[normCond(cd).V] {
+							ok = false
+							extra = normCond(cd).V.String()
+						}
+					}
 				}
 			}
 		})
-		e.check(ok, "R1", construct+":LastEvaluatedKey", e.ipos(s.call), "output.LastEvaluatedKey = conv(second result of SearchData)")
+		e.check(ok, "R1", construct+":LastEvaluatedKey", e.ipos(s.call), "output.LastEvaluatedKey = conv(second result of SearchData), set whenever the search returns %s", map[bool]string{true: "", false: "(additionally governed by " + extra + ")"}[extra == ""])
 	}
 	e.minCount("R1", 12)
 }
@@ -220,6 +233,7 @@ func c04R2(e *Engine) {
 	}
 	// (b) key contents: table key attributes + index key attributes when an index is used
 	var tableKeys, indexKeys, indexGuard bool
+	var tableKeyCalls []ssa.Instruction
 	instrs(glk, func(in ssa.Instruction) {
 		c, ok := in.(*ssa.Call)
 		if !ok || c.Call.StaticCallee() == nil || len(c.Call.Args) < 1 {
@@ -235,6 +249,7 @@ func c04R2(e *Engine) {
 		switch fieldOwner(sf) + "." + sf.Name() {
 		case "Table.KeySchema":
 			tableKeys = true
+			tableKeyCalls = append(tableKeyCalls, in)
 		case "index.keySchema":
 			indexKeys = true
 			for _, cd := range condsAt(in.Block()) {
@@ -244,6 +259,23 @@ func c04R2(e *Engine) {
 			}
 		}
 	})
+	// … on every path: a returned key that is not the empty "no more pages" map is built on the table's key attributes
+	for _, r := range returnsOf(glk) {
+		rv := strip(retVals(r)[0])
+		if mm, isMM := rv.(*ssa.MakeMap); isMM && len(refsOf(mm)) <= 1 {
+			continue
+		}
+		dominated := false
+		for _, c := range tableKeyCalls {
+			if idominates(c, r) {
+				dominated = true
+			}
+		}
+		if !dominated && tableKeys {
+			tableKeys = false
+			e.fail("R2", e.fname(glk)+":key-attributes-on-every-path", e.ipos(r), "a key is returned on a path on which the table's key attributes were not derived with the table's key schema: with a hash+range table the key handed out cannot be turned back into a position, the next page starts over or never ends")
+		}
+	}
 	e.check(tableKeys && indexKeys && indexGuard, "R2", e.fname(glk)+":key-attributes", e.pos(glk.Pos()), "the returned key carries the table's key attributes (%v) and, when an index is used (%v), the index's key attributes (%v)", tableKeys, indexGuard, indexKeys)
 	// (c) the incoming start key is rendered with the table's key schema
 	ok := false
